@@ -26,6 +26,8 @@ func Run(tt *testing.T) func(t *sim.Tape, profile, tier string) *sim.RunResult {
 				kind = runC17(s, tier)
 			case "C10":
 				kind = runHostile(s)
+			case "C20":
+				kind = runText(s)
 			default:
 				kind = runC19(s, tier)
 			}
@@ -37,6 +39,9 @@ func Run(tt *testing.T) func(t *sim.Tape, profile, tier string) *sim.RunResult {
 			res.Stats, res.Violations = s.stats, s.viols
 			res.Stats.Inc("session." + kind)
 			res.Nontrivial = s.stats["net.deliveries"] > 0 || s.stats["merkle.ops"] > 0
+			if profile == "C20" {
+				res.Nontrivial = s.stats["text.parsed"] > 0
+			}
 			if profile == "C10" {
 				res.Nontrivial = s.stats["hostile.decoded"] > 0
 			}
